@@ -217,12 +217,16 @@ func (tm *typesMap) nameOf(typs []types.Type) (string, bool) {
 			}
 		}
 	}
+	// Several entries can match when named and unnamed types are mutually assignable.
+	// Pick the smallest name instead of the first one in (random) map order,
+	// so that the generated code does not differ from run to run.
+	found, ok := "", false
 	for name, ts := range tm.funcToTyps {
-		if eq(typs, ts) {
-			return name, true
+		if eq(typs, ts) && (!ok || name < found) {
+			found, ok = name, true
 		}
 	}
-	return "", false
+	return found, ok
 }
 
 func (tm *typesMap) Generating(typs ...types.Type) {
